@@ -28,3 +28,24 @@ def duration_float_precision(clause, case, detail):
         if int(m.group(1)) >= 992187:
             return True
     return False
+
+
+@predicate("c12_served_by_equal_type")
+def c12_served_by_equal_type(clause, case, detail):
+    """Root cause: every routine/graph cache is a functools cache keyed by ==/hash, and
+    typing.Union[int, str] == typing.Union[str, int] (same hash). Once a routine for one member order
+    exists, the other order is served by it. The harness diagnoses this independently: the hot outcome
+    equals the *cold* outcome of the equal-but-distinct partner type that was used earlier in the
+    history since the last cache clear (case['diag'])."""
+    d = case.get("diag", "")
+    return clause == "same-as-cold-process" and d.startswith("served-by-equal-type:") and "'Item'@" not in d
+
+
+@predicate("c12_bare_string_reference_cached_by_name")
+def c12_bare_string_reference_cached_by_name(clause, case, detail):
+    """Root cause: a bare string reference ('Item') is resolved through the caller's frames once and
+    then memoised by the string alone (refs._resolve_module_name, graph.static_order, marshaller,
+    unmarshaller are all keyed by the str). The same name issued later from another module is served by
+    the first module's class. Diagnosed like c12_served_by_equal_type, partner = the other module."""
+    d = case.get("diag", "")
+    return clause == "same-as-cold-process" and d.startswith("served-by-equal-type:'Item'@")
